@@ -35,7 +35,7 @@ use yvcommon::util::{opt, opt_usize, seed};
 /// A worker that prints nothing for this long is considered hung on the
 /// program it announced (simulated runs take well under a millisecond of CPU;
 /// the margin is for a heavily loaded machine).
-const STALL_SIM: Duration = Duration::from_secs(20);
+const STALL_SIM: Duration = Duration::from_secs(8);
 /// Real-OS runs have their own per-run timeout (60 s) inside the worker.
 const STALL_REAL: Duration = Duration::from_secs(200);
 
@@ -96,6 +96,7 @@ fn worker_run(args: &[String]) -> i32 {
     let parts = opt_usize(args, "--parts", 1).max(1);
     let skip = opt_usize(args, "--skip", 0);
     let only = opt(args, "--only").and_then(|s| s.parse::<usize>().ok());
+    let avoid = opt_usize(args, "--avoid", 0) != 0;
     let path = opt(args, "--in").expect("--in");
     let f = BufReader::new(std::fs::File::open(path).expect("open --in"));
     let sd = seed();
@@ -165,6 +166,7 @@ fn worker_run(args: &[String]) -> i32 {
                 let s = mix(mix(mix(sd, idx as u64), oi as u64), vi as u64);
                 // the first variant is the plain rendering, the others vary the surface
                 let mut rd = Renderer::new(s, mode, vi > 0 || variants == 1 && idx % 2 == 1);
+                rd.avoid_blank_lines = avoid;
                 let rendered = rd.program(&tree, e, t);
                 let obs = execute(mode, &rendered);
                 runs += 1;
@@ -384,7 +386,7 @@ fn supervise(worker: &str, args: &[String], jobs: usize, sink: &mut dyn FnMut(Va
                         let mut settled = false;
                         if why == "timeout" && confirmed_hangs < 1 {
                             let extra = vec!["--only".to_string(), idx.to_string()];
-                            let (p2, l2, _) = run_worker(&exe, &worker, &args, &extra, stall * 8, &tx);
+                            let (p2, l2, _) = run_worker(&exe, &worker, &args, &extra, stall * 4, &tx);
                             if l2.is_none() && p2.is_none() {
                                 settled = true; // its result record has been delivered
                             } else {
